@@ -625,6 +625,7 @@ def run_shard(spec, rec):
     quiet_logs()
     OT.memoize_pem_loading()
     OT.KEYS.rsa(0)
+    rec.count("reference_selftest_assertions", AO.selftest() + (OT.selftest() if spec.get("part") == 0 else 0))
     if spec["mode"] == "product":
         cells = list(all_cells())
         k, n = spec["part"], spec["parts"]
